@@ -108,7 +108,11 @@ type Contract struct {
 	Assumes  []*Clause
 	Modifies []string
 	HasMod   bool
-	After    map[int][]*Clause // proof hints: proved then assumed right after the N-th call (source order)
+	After    map[string][]*Clause // proof hints: proved then assumed right after a call: key "N" (N-th call in source order) or "Name" / "Name#k" (k-th call of a callee so named)
+	// ghost variables: `ghost x = e` gives the value at entry (evaluated in the entry state); `after call N: ghost x = e`
+	// re-assigns it right after the N-th call (not inside loops). Visible in ensures and in later hints.
+	Ghost      []GhostDef
+	AfterGhost map[string][]GhostDef
 	Loops    map[int]*LoopSpec
 	Pure     bool
 	File     string
@@ -470,7 +474,7 @@ func (p *parser) primary() *E {
 
 // ---------- contract files ----------
 
-var clauseKw = map[string]bool{"after": true, "props": true, "arith": true, "requires": true, "ensures": true, "modifies": true,
+var clauseKw = map[string]bool{"ghost": true, "after": true, "props": true, "arith": true, "requires": true, "ensures": true, "modifies": true,
 	"loop": true, "assume": true, "pure": true, "opt": true, "preserves": true}
 
 var reFuncHdr = regexp.MustCompile(`^(trusted\s+)?func\s+(\S.*)$`)
@@ -674,6 +678,16 @@ func (cs *Contracts) loadFile(file string) error {
 			case "assume":
 				cur.Assumes = append(cur.Assumes, c)
 			}
+		case "ghost":
+			i := strings.Index(rest, "=")
+			if i < 0 {
+				return fail(fmt.Errorf("ghost needs name = expr"))
+			}
+			ge, err := ParseExpr(rest[i+1:])
+			if err != nil {
+				return fail(err)
+			}
+			cur.Ghost = append(cur.Ghost, GhostDef{Name: strings.TrimSpace(rest[:i]), Expr: ge})
 		case "preserves":
 			c, err := mk("requires", rest, 0)
 			if err != nil {
@@ -700,17 +714,33 @@ func (cs *Contracts) loadFile(file string) error {
 			}
 		case "after":
 			// after call N: expr
-			m := regexp.MustCompile(`^call\s+(\d+)\s*:\s*(.*)$`).FindStringSubmatch(rest)
+			m := regexp.MustCompile(`^call\s+([A-Za-z0-9_#]+)\s*:\s*(.*)$`).FindStringSubmatch(rest)
 			if m == nil {
 				return fail(fmt.Errorf("expected 'after call N: expr'"))
 			}
-			k, _ := strconv.Atoi(m[1])
+			k := m[1]
+			if strings.HasPrefix(m[2], "ghost ") {
+				gs := strings.TrimSpace(m[2][6:])
+				i := strings.Index(gs, "=")
+				if i < 0 {
+					return fail(fmt.Errorf("ghost needs name = expr"))
+				}
+				ge, err := ParseExpr(gs[i+1:])
+				if err != nil {
+					return fail(err)
+				}
+				if cur.AfterGhost == nil {
+					cur.AfterGhost = map[string][]GhostDef{}
+				}
+				cur.AfterGhost[k] = append(cur.AfterGhost[k], GhostDef{Name: strings.TrimSpace(gs[:i]), Expr: ge})
+				break
+			}
 			c, err := mk("after", m[2], 0)
 			if err != nil {
 				return err
 			}
 			if cur.After == nil {
-				cur.After = map[int][]*Clause{}
+				cur.After = map[string][]*Clause{}
 			}
 			cur.After[k] = append(cur.After[k], c)
 		case "loop":
